@@ -62,7 +62,8 @@ def base_schema(rnd, mode):
                               ("container", "gc", opt([False, True]), [leaf("gy")])])
     top = ("container", "top", opt([True, False]),
            [leaf("x"), lst("l"), ll("ll"), ("container", "in", opt([False, True]), [leaf("y"), ll("yl")]),
-            choice("ch", "a", "cb", "b"), ("any", False, "ad", opt([True, False]), opt([False, True]))])
+            choice("ch", "a", "cb", "b"), ("any", False, "ad", opt([True, False]), opt([False, True])),
+            ("rpc", True, "ping", [leaf("count")], None)])
     b = mod("b", "b", body=[g, top, ("container", "c1", None, [("uses", "g")]), ("container", "c2", None, [("uses", "g")]),
                             ("rpc", False, "r", [leaf("ri"), lst("rl")], [leaf("ro")]), ("rpc", False, "r2", None, None),
                             ("notification", "nt", [leaf("nx")])])
@@ -105,6 +106,19 @@ def base_schema(rnd, mode):
     t(["r2", "input"], "input", None)                         # implicit: created on demand by the lookup
     t(["r2", "output"], "output", None)
     t(["nt", "nx"], "leaf", b["body"][6][2][0])
+    t(["top", "ping"], "rpc", None)                           # an action
+    t(["top", "ping", "input"], "input", None)
+    t(["top", "ping", "input", "count"], "leaf", tb[6][3][0])
+    t(["top", "ping", "output"], "output", None)              # implicit
+    # below an rpc or action there are input and output only: a path that leaves the step out, or puts something else
+    # there, names nothing
+    t(["r", "ri"], "missing", None)
+    t(["r", "rl", "v"], "missing", None)
+    t(["r", "params", "input", "ri"], "missing", None)
+    t(["r", "input", "input", "ri"], "missing", None)
+    t(["r2", "zz"], "missing", None)
+    t(["top", "ping", "count"], "missing", None)
+    t(["top", "ping", "x", "output"], "missing", None)
     gb = g[3]
     for inst in ("c1", "c2"):
         t([inst, "gx"], "leaf", gb[0])
